@@ -146,6 +146,16 @@ def evaluate(case):
         out.inconclusive = "import_statement"
         return out
     out.sample = {"grammar": text}
+    # the same contract holds for every metamodel option; autokwd compiles keyword-like literals to regular expressions
+    try:
+        metamodel_from_str(text, autokwd=True, ignore_case=True)
+    except TextXError:
+        pass
+    except RecursionError:
+        pass  # reported by the default-option run below
+    except Exception as e:  # noqa: BLE001
+        out.cls("other_exception")
+        return out.add(exc_bucket(e, "not_a_textx_error/autokwd"), f"grammar {text!r} (autokwd=True): {type(e).__name__}: {e}")
     try:
         metamodel_from_str(text)
         out.cls("accepted")
